@@ -96,10 +96,14 @@ type Entry struct {
 
 var _ xpath.Entry = (*Entry)(nil)
 
-func (t *Tree) Root() *Entry      { return &Entry{T: t, Id: ID{}} }
-func (t *Tree) At(id ID) *Entry   { return &Entry{T: t, Id: id.clone()} }
-func (t *Tree) Calls() int        { return t.calls }
-func (t *Tree) rec(c Call)        { if !t.NoRecord { t.Trace = append(t.Trace, c) } }
+func (t *Tree) Root() *Entry    { return &Entry{T: t, Id: ID{}} }
+func (t *Tree) At(id ID) *Entry { return &Entry{T: t, Id: id.clone()} }
+func (t *Tree) Calls() int      { return t.calls }
+func (t *Tree) rec(c Call) {
+	if !t.NoRecord {
+		t.Trace = append(t.Trace, c)
+	}
+}
 func (t *Tree) fault() error {
 	t.calls++
 	if t.FaultAt != 0 && t.calls == t.FaultAt {
